@@ -43,6 +43,11 @@ def probe_lines(fmt, with_grain_species):
             ("2,H2,,,H,H,,,10,1d4,user_crate*2d0*foo/user_Av", "krome:uservar"),
             ("3,H,E,,H+,E,E,,NONE,NONE,exp(-32.7d0+13.5d0*lnTe)*sqrTgas*invTe*Te", "krome:derived"),
             ("4,H+,E,,H,,,,>5.5e3,NONE,3.92d-13*invTe**0.6353d0*n(idx_H)", "krome:nidx"),
+            # a user parameter that only occurs inside a derived variable, and a variable built on another variable
+            ("@common: user_fs", "krome:common-in-var"),
+            ("@var: fshield = exp(-2.5d0*user_fs)", "krome:var-uses-common"),
+            ("@var: fshield2 = fshield*foo", "krome:var-uses-var"),
+            ("5,H2,,,H,H,,,NONE,NONE,2.0d-10*fshield2", "krome:rate-uses-var-chain"),
         ]
     elif fmt == "krome-late":
         # directives after the first reaction line, a second @common further down
